@@ -6907,6 +6907,16 @@ def _log_stats(func, stats):
                                                                       for k, t, n in sorted(aggstats, reverse=True, key=lambda item: item[1]) if n))
 
 
+# NUTILS_VERIF hook (off unless the environment variable is set): observers
+# are callables `observer(evaluable, value)` invoked from generated code.
+_verif_observers = [] if os.environ.get('NUTILS_VERIF') else None
+
+
+def _verif_observe(evaluable, value):
+    for observer in _verif_observers:
+        observer(evaluable, value)
+
+
 class _BlockTreeBuilder:
 
     def __init__(
@@ -6967,6 +6977,10 @@ class _BlockTreeBuilder:
                 for i, n in enumerate(evaluable.shape):
                     if isinstance(n, Constant):
                         block.assert_equal(out.get_attr('shape').get_item(_pyast.LiteralInt(i)), _pyast.LiteralInt(n.__index__()))
+            if _verif_observers is not None and isinstance(evaluable, Array):
+                # NUTILS_VERIF hook: report every materialised array to the registered observers.
+                eid = 'e{}'.format(self._get_evaluable_index(evaluable))
+                self.get_block(self.get_block_id(evaluable)).exec(_pyast.Variable('evaluable').get_attr('_verif_observe').call(_pyast.Variable(eid), out))
         return out
 
     def compile_with_out(self, evaluable: Evaluable, out: _pyast.Expression, out_block_id: _BlockId, mode: str) -> None:
